@@ -50,4 +50,16 @@ PROPS = {
         "level_text": "Machine-checked Lean 4 theorems, for every instantiation of hash and signature predicate and all byte strings: verify_iff (acceptance <-> the eight conjuncts of the property, signature returned unchanged), verify_total, the error kind for each first failing condition, txPreimage_injective and for_no_other (the signed message determines request hash, response hash, key id, nonce), tamper_rejected / tamper_req_hash_rejected / unknown_key_rejected, lookupKey_none_iff, stripEtag_infix/ascii/quoted/weak/plain; the model is run with its own SHA-256 and P-256 against the real StandardCupv2Handler on every invocation.",
         "level_note": "Trusted: Lean kernel; the hand-written model of cup_ecdsa.rs and of the third-party crates it calls (listed in trusted_base); harness and diff. Unforgeability and collision resistance are hypotheses.",
     },
+    "C15": {
+        "lean_modules": ["Omaha.Props.C15"],
+        "streams": [{"name": "wire-req", "file": "wire-req", "args": ["wire-req"]}],
+        "rule": "random configs (updater names / OS strings with quotes, backslashes, control and non-ASCII characters), all 8 parameter combinations, op sequences of 0..9 builder operations "
+                "(update check / ping / event with all code combinations / request id / session id) over a pool of 1..3 app ids so that ids repeat with differing cohorts, versions, fingerprints, "
+                "user-counting values and extra-field maps (incl. keys colliding with protocol fields); build, build again, continue with more ops, build; byte-exact body, headers, method, URI; "
+                "non-trivial = at least 2 operations; distinct = (op-kind sequence, params, pool size)",
+        "trusted_extra": ["modelled, not verified: serde derive attribute semantics and serde_json's compact writer/escaping (Json.render), http::HeaderValue validity, hashbrown clone preserving iteration order (extra fields are compared in the map's own order), uuid braced formatting"],
+        "assumptions": ["GUIDs are drawn by the library (random in non-test builds); the harness reads them back from the serialised value and hands them to the model"],
+        "level_text": "Machine-checked Lean 4 theorems over all operation sequences and all field values: apps_once_first_order (+ dedupL_nodup, mem_dedupL, dedupL_snoc), entry_spec (per app id: first insertion's app data, update check iff added with the params' flags, ping iff added, exactly the events added in order), ids_spec, applyAll_append (build_pure), app_members / event_members / body_members / cohort_only_set_fields / updatecheck_flags / ping_ad_eq_rd / headers_shape / build_spec at the JSON-value level; the text layer and the whole builder are tied to the real RequestBuilder byte-for-byte on every run.",
+        "level_note": "Trusted: Lean kernel; the model of serde/serde_json/http behaviour; harness and diff. The stretch theorem parse_render (text level) is not proved; byte-exactness is established by the correspondence only.",
+    },
 }
